@@ -373,9 +373,9 @@ func genProtoValue(r *Rng, max int) []byte {
 	if n > max {
 		n = max
 	}
-	if max > 12000 && r.Bool(1, 10) {
+	if max > 12000 && r.Bool(1, 8) {
 		// a compressible head (the server probes the first 10 KiB) and an incompressible tail
-		n = r.Pick(10241+300, 12000, 20000, 60000)
+		n = r.Pick(12000, 36000, 50000, 60000, 100000) // (above ~34 KB the value as a whole compresses to more than 70 %)
 		if n > max {
 			n = max
 		}
@@ -617,7 +617,7 @@ func genProtoPlan(prop string, seed uint64, tier string) *Plan {
 		}
 	}
 	c.TreeHeight = r.Pick(2, 3)
-	c.BodyMax = r.Pick64(2048, 16384)
+	c.BodyMax = r.Pick64(2048, 16384, 16384, 65536)
 	c.BodyInC = r.Pick64(0, 0, 64, 4096)
 	c.Background = r.Bool(1, 2)
 	c.MaxReq = r.Pick(1, 2, 16, 16, 16, 16)
@@ -822,14 +822,23 @@ func runProto(plan *Plan, tape *simrt.Tape) *Outcome {
 		probe := g.NewConn()
 		r := probe.Do([]byte("version\r\n"))
 		if r.Status != "VERSION" {
-			x.fail("R-proto-other-conn", "", "a fresh connection did not get an answer to 'version' after the streams: "+r.String())
-			return
+			if plan.Extra["slowclient"] == 1 && (r.NoReply || r.Status == "PROCESS_TIMEOUT" || r.Status == "RECV_TIMEOUT") {
+				// timeout_ms is within reach in slow-client worlds, and simulated time advances with
+				// every scheduler step: any command, the probe included, may run into the process
+				// timeout, which drops the reply (DESIGN section 11.3). Not a verdict about liveness.
+				x.out.probe("liveness-probe-hit-process-timeout")
+			} else {
+				x.fail("R-proto-other-conn", "", "a fresh connection did not get an answer to 'version' after the streams: "+r.String())
+				return
+			}
 		}
 		// a still open, in-sync connection answers a sentinel
 		for i, cs := range conns {
 			if !cs.closedByServer && !cs.op.Pretend && !cs.rc.incomplete && !cs.rc.closed && allRepliesOK(cs.replies) {
 				r := cs.cl.Do([]byte("version\r\n"))
-				if r.Status != "VERSION" {
+				if r.Status != "VERSION" && plan.Extra["slowclient"] == 1 && (r.NoReply || r.Status == "PROCESS_TIMEOUT" || r.Status == "RECV_TIMEOUT") {
+					x.out.probe("sentinel-hit-process-timeout")
+				} else if r.Status != "VERSION" {
 					if os.Getenv("VERIF_DEBUG") != "" {
 						for j, e := range cs.rc.exps {
 							fmt.Fprintf(os.Stderr, "EXP conn%d #%d kind=%d status=%q desc=%q\n", i, j, e.Kind, e.Status, trunc(e.Desc, 80))
